@@ -33,7 +33,7 @@ BUDGET = {"quick": {"examples": 8000, "deadline_s": 90}, "thorough": {"examples"
 @st.composite
 def strategy_(draw, tier):
     big = tier == "thorough"
-    case = draw(gen.model_cases(classes=["MinFlowDecomp"], max_nodes=7 if big else 5, noise=False, p_opts=0, p_se=0, p_constr=3, p_ignore=4, p_node=4))
+    case = draw(gen.model_cases(classes=["MinFlowDecomp"], max_nodes=7 if big else 5, noise=False, p_opts=0, p_se=0, p_constr=2, p_ignore=4, p_node=4, p_hub=3))
     opts = {}
     mode = draw(st.sampled_from(["default", "default", "mgs", "scan", "guess", "nogreedy", "mix"]))
     if mode in ("mgs", "mix"):
